@@ -652,6 +652,9 @@ type BatchOpts struct {
 	Known     Findings
 	MaxViol   int
 	HangFile  string
+	// Cold: no control run; the first execution in this process is the first run of the shard itself
+	// (cold-start runs: one run per process, see the driver)
+	Cold bool
 }
 
 // RunSeedFor derives the seed of run i.
@@ -674,7 +677,10 @@ func RunBatch(s *Scenario, o BatchOpts) *Batch {
 
 	// control scenario: fixed seed, hash must never change within a process
 	ctlSeed := RunSeedFor(0xC0117801, s.ID, 0)
-	ctl := RunOnce(s, o.Tier, ctlSeed, nil, nil, false, false)
+	var ctl Outcome
+	if !o.Cold {
+		ctl = RunOnce(s, o.Tier, ctlSeed, nil, nil, false, false)
+	}
 	if ctl.HarnessPanic != "" {
 		b.HarnessError = append(b.HarnessError, "control run: "+ctl.HarnessPanic)
 	}
@@ -763,7 +769,7 @@ func RunBatch(s *Scenario, o BatchOpts) *Batch {
 			}
 		}
 		// post-fault recovery invariant: faults leave no residue in package state
-		if count%400 == 0 {
+		if count%400 == 0 && !o.Cold {
 			b.ControlRuns++
 			c2 := RunOnce(s, o.Tier, ctlSeed, nil, nil, false, false)
 			if c2.Hash != ctl.Hash {
